@@ -17,6 +17,7 @@ mod scen_c08;
 mod scen_c15;
 mod scen_link;
 mod scen_local;
+mod scen_pw;
 mod scen_tcp;
 mod scen_udp;
 
@@ -33,6 +34,8 @@ fn generate(prop: &str, seed: u64, thorough: bool) -> Option<Plan> {
         "C04" => Some(scen_link::gen_c04(seed, thorough)),
         "C05" => Some(scen_link::gen_c05(seed, thorough)),
         "C08" => Some(scen_c08::gen_c08(seed, thorough)),
+        "C11model" => Some(scen_pw::gen_c11_model(seed, thorough)),
+        "C11" => Some(scen_udp::gen_c11_system(seed, thorough)),
         "C13" => Some(scen_local::gen_c13(seed, thorough)),
         "C15" => Some(scen_c15::gen_c15(seed, thorough)),
         _ => None,
@@ -48,6 +51,7 @@ fn execute(plan: &Plan) -> Outcome {
         "teardown" => scen_c15::execute_c15(plan),
         "survival" => scen_c08::execute_c08(plan),
         "udp-system" => scen_udp::execute_udp(plan),
+        "pw-model" => scen_pw::execute_pw(plan),
         other => {
             eprintln!("unknown scenario {other}");
             std::process::exit(2);
